@@ -170,7 +170,7 @@ func QuickHeaders() HeaderUniverse {
 		Produces: [][]string{nil, {JSON}, {XML}, {JSON, XML}, {"*/*"}},
 		Ifs:      [][]rm.Cond{nil, {rm.CondTrue}, {rm.CondFalse}, {rm.CondHdr}},
 		NoCT:     [][]string{nil, {"POST"}, {"GET", "POST"}},
-		CTs:      []string{"", JSON, XML, "application/json; charset=utf-8", "text/plain", "application/jsonx"},
+		CTs:      []string{"", JSON, XML, "application/json; charset=utf-8", "text/plain", "application/jsonx", "*/*", "application/json ; charset=utf-8"},
 		Accepts:  []string{"", "*/*", JSON, XML, "text/plain", "application/xml;q=0.5, application/json", "application/jsonx", ",;q=, " + JSON},
 		XCs:      []string{"", "1"},
 		Bodies:   []bool{false, true},
@@ -181,7 +181,7 @@ func ThoroughHeaders() HeaderUniverse {
 	hu := QuickHeaders()
 	hu.Produces = append(hu.Produces, []string{"application/vnd.v+json"})
 	hu.Ifs = append(hu.Ifs, []rm.Cond{rm.CondTrue, rm.CondHdr}, []rm.Cond{rm.CondHdr, rm.CondFalse})
-	hu.CTs = append(hu.CTs, "*/*", ";;,", " application/json ")
+	hu.CTs = append(hu.CTs, ";;,", " application/json ", "text/plain, */*;q=0.1")
 	hu.Accepts = append(hu.Accepts, "text/plain, */*;q=0.1", ",;q=", strings.Repeat(",", 2048), " application/json ; q=1")
 	return hu
 }
